@@ -18,7 +18,8 @@ EXTENDS Val, TLC, Json, IOUtils, SequencesExt
 
 CONSTANTS Tier,        \* 1: quick universe, 2: thorough universe
           MaxStr,      \* bound on the grown string
-          Export       \* TRUE: print the universe and the pair table
+          Export,      \* TRUE: print the universe and the pair table
+          Need         \* which tables this run uses: subset of {"eq", "lt", "tx"}
 
 -----------------------------------------------------------------------------
 (* The universe. *)
@@ -62,7 +63,8 @@ P1 == IF Tier = 1
       ELSE {VInt(1), VDec(1, 1), VInt(2), VDec(1, 2), VStr(<<97>>), VStr(<<97, 32>>),
             VStr(<<97, 39>>), VBool(1), VBool(0), VNull}
 \* map keys / values
-KP == {VInt(1), VDec(1, 1), VStr(<<97>>), VStr(<<97, 33>>), VBool(1), VBool(0)}
+KP == IF Tier = 1 THEN {VInt(1), VDec(1, 1), VStr(<<97>>), VBool(1), VBool(0)}
+      ELSE {VInt(1), VDec(1, 1), VStr(<<97>>), VStr(<<97, 33>>), VBool(1), VBool(0)}
 VP == <<VInt(1), VStr(<<97>>), VDec(1, 1)>>
 LL1 == IF Tier = 1 THEN 2 ELSE 3
 SL1 == IF Tier = 1 THEN 2 ELSE 3
@@ -71,11 +73,11 @@ ML1 == 2
 Lists1 == {VList(q) : q \in SeqsUpTo(P1, LL1)}
 Sets1  == {VSet(q) : q \in NDSeqs(P1, SL1)}
 Maps1  == {VMap(q, [i \in 1..Len(q) |-> VP[((i + sh) % 3) + 1]]) :
-             q \in NDSeqs(KP, ML1), sh \in 0..1}
+             q \in NDSeqs(KP, ML1), sh \in (IF Tier = 1 THEN {0} ELSE {0, 1})}
 
 \* element pool of the depth-2 containers
 P2 == IF Tier = 1
-      THEN {VInt(1), VList(<<VInt(1)>>), VList(<<VDec(1, 1)>>), VSet(<< >>),
+      THEN {VList(<<VInt(1)>>), VList(<<VDec(1, 1)>>), VSet(<< >>),
             VSet(<<VInt(1), VInt(2)>>), VSet(<<VInt(2), VInt(1)>>),
             VMap(<<VStr(<<97>>)>>, <<VInt(1)>>)}
       ELSE {VInt(1), VList(<< >>), VList(<<VInt(1)>>), VList(<<VDec(1, 1)>>), VSet(<< >>),
@@ -87,8 +89,12 @@ P2 == IF Tier = 1
 LL2 == 2
 Lists2 == {VList(q) : q \in SeqsUpTo(P2, LL2)}
 Sets2  == {VSet(q) : q \in NDSeqs(P2, 2)}
-Maps2  == {VMap(<<x>>, <<y>>) : x \in P2, y \in P2}
-          \cup {VMap(<<x, VInt(2)>>, <<VInt(1), y>>) : x \in P2 \ {VInt(1)}, y \in P2}
+Maps2  == IF Tier = 1
+          THEN {VMap(<<x>>, <<x>>) : x \in P2}
+               \cup {VMap(<<x, VInt(2)>>, <<VInt(1), x>>) : x \in P2}
+               \cup {VMap(<<VInt(2), x>>, <<x, VInt(1)>>) : x \in P2}
+          ELSE {VMap(<<x>>, <<y>>) : x \in P2, y \in P2}
+               \cup {VMap(<<x, VInt(2)>>, <<VInt(1), y>>) : x \in P2 \ {VInt(1)}, y \in P2}
 \* depth 3: one more level around a few depth-2 values
 P3 == {VList(<<VSet(<<VInt(1), VInt(2)>>)>>), VList(<<VSet(<<VInt(2), VInt(1)>>)>>),
        VSet(<<VSet(<< >>)>>), VSet(<<VList(<<VInt(1)>>)>>), VSet(<<VList(<<VDec(1, 1)>>)>>)}
@@ -100,11 +106,16 @@ U == Scalars \cup Lists1 \cup Sets1 \cup Maps1 \cup Lists2 \cup Sets2 \cup Maps2
 USeq == SetToSeq(U)
 N    == Len(USeq)
 
-\* the relation tables, computed once
-EqT == [i \in 1..N |-> [j \in 1..N |-> Equal(USeq[i], USeq[j])]]
-LtT == [i \in 1..N |-> [j \in 1..N |-> Less(USeq[i], USeq[j])]]
-StT == [i \in 1..N |-> [j \in 1..N |-> Stated(USeq[i], USeq[j])]]
-TxT == [i \in 1..N |-> Render(USeq[i])]
+\* the relation tables, computed once (each value is normalised once:
+\* Less(x, y) = LessN(Norm(x), Norm(y)), Render(x) = RenderN(Norm(x)))
+NT  == [i \in 1..N |-> Norm(USeq[i])]
+EqT == IF "eq" \in Need
+       THEN [i \in 1..N |-> [j \in 1..N |-> Equal(USeq[i], USeq[j])]] ELSE << >>
+LtT == IF "lt" \in Need
+       THEN [i \in 1..N |-> [j \in 1..N |-> LessN(NT[i], NT[j])]] ELSE << >>
+StT == IF "lt" \in Need
+       THEN [i \in 1..N |-> [j \in 1..N |-> Stated(USeq[i], USeq[j])]] ELSE << >>
+TxT == IF "tx" \in Need THEN [i \in 1..N |-> RenderN(NT[i])] ELSE << >>
 
 Alphabet == IF Tier = 1 THEN {39, 92, 10, 9, 110, 120, 97, 52}
             ELSE {39, 92, 10, 13, 9, 110, 114, 116, 120, 97, 52, 233}
@@ -135,6 +146,7 @@ Spec == Init /\ [][Next]_vars
 TypeOK == /\ mode \in {"pair", "str"} /\ ia \in 1..N /\ ib \in 1..N
           /\ WF(a) /\ WF(b)
 
+Triv == N > 0
 EqReflexive  == EqT[ia][ia]
 EqSymmetric  == EqT[ia][ib] = EqT[ib][ia]
 EqTransitive == \A c \in 1..N : EqT[ia][ib] /\ EqT[ib][c] => EqT[ia][c]
@@ -158,8 +170,10 @@ IsReorderOf(x, y) ==
         /\ \A i \in DOMAIN x.items : y.items[i] = x.items[p[i]]
         /\ x.k = "map" => \A i \in DOMAIN x.items : y.vals[i] = x.vals[p[i]]
 
-\* sets and maps are equal regardless of insertion order, and render the same
-OrderFree == IsReorderOf(a, b) => EqT[ia][ib] /\ TxT[ia] = TxT[ib]
+\* sets and maps are equal regardless of insertion order (C06), and render
+\* the same (C08)
+OrderFree     == IsReorderOf(a, b) => EqT[ia][ib]
+OrderFreeText == IsReorderOf(a, b) => TxT[ia] = TxT[ib]
 
 \* structural equality of lists; extensional equality of sets
 ListStructural ==
@@ -168,7 +182,8 @@ ListStructural ==
                      /\ \A i \in DOMAIN a.items : Equal(a.items[i], b.items[i]))
 SetExtensional ==
   a.k = "set" /\ b.k = "set" =>
-    (EqT[ia][ib] <=> \A c \in 1..N : Has(a.items, USeq[c]) <=> Has(b.items, USeq[c]))
+    (EqT[ia][ib] <=> \A x \in Ran(a.items) \cup Ran(b.items) :
+                        Has(a.items, x) <=> Has(b.items, x))
 
 \* equal values are interchangeable as elements and keys
 Interchangeable ==
@@ -209,11 +224,11 @@ NamedOrders ==
 
 \* sets and map keys are enumerated in ascending order
 EnumAscending ==
-  a.k \in {"set", "map"} =>
-    LET srt == SortItems(a.items) IN
+  ib = 1 /\ a.k \in {"set", "map"} =>
+    LET srt == NT[ia].items IN
       /\ Len(srt) = Len(a.items)
       /\ \A i \in DOMAIN srt : Has(a.items, srt[i])
-      /\ \A i \in 1..(Len(srt) - 1) : Less(srt[i], srt[i + 1])
+      /\ \A i \in 1..(Len(srt) - 1) : LessN(srt[i], srt[i + 1])
 
 -----------------------------------------------------------------------------
 (* C08 *)
@@ -244,7 +259,7 @@ RenderShape ==
      /\ a.k = "dec" => IsDecNumeral(u)
      /\ a.k = "str" => LET r == ScanStr(t) IN r.used = Len(t) /\ r.payload = a.s
      /\ IsNum(a) => (IsNeg(a) <=> t[1] = 45)
-     /\ Tokens(a) # << >>
+     /\ TokensN(NT[ia]) # << >>
 
 \* no two adjacent brackets of nested sets / maps fuse when read back:
 \* "<<" is never directly followed by "<", ">" never directly by ">>" of the parent
@@ -267,10 +282,14 @@ EscapeRoundTrip ==
    enumeration order is stated; one row of the pair table per value. *)
 Emit(tag, rec) == IF Export THEN PrintT("@@" \o tag \o "@@" \o ToJson(rec)) ELSE TRUE
 
-ExportRows ==
+ExportU ==
   mode = "pair" /\ ib = 1 =>
-    Emit("UVAL", [i |-> ia, v |-> a, txt |-> TxT[ia], toks |-> Tokens(a),
-                  os |-> OrderStated(a), n |-> N,
-                  eq |-> EqT[ia], lt |-> LtT[ia], st |-> StT[ia]])
+    Emit("UVAL", [i |-> ia, n |-> N, v |-> a, os |-> OrderStated(a)])
+ExportEq ==
+  mode = "pair" /\ ib = 1 => Emit("EQ", [i |-> ia, eq |-> EqT[ia]])
+ExportLt ==
+  mode = "pair" /\ ib = 1 => Emit("LT", [i |-> ia, lt |-> LtT[ia], st |-> StT[ia]])
+ExportTx ==
+  mode = "pair" /\ ib = 1 => Emit("TX", [i |-> ia, txt |-> TxT[ia], toks |-> TokensN(NT[ia])])
 
 =============================================================================
